@@ -171,7 +171,8 @@ Fixpoint process_all (o : popts) (st : store) (ix : index) (P : pstate) (es : li
 Inductive taction := Shortcut | AlreadyIndexed | Save.
 Definition backup_tree_action (parent : presult id) (tree_id : id) (has_tree : bool) : taction :=
   match parent with
-  | Matched p => if tree_id =? p then Shortcut else if has_tree then AlreadyIndexed else Save
+  | Matched p => if (tree_id =? p) && (negb shortcut_requires_has_tree || has_tree) then Shortcut
+                 else if has_tree then AlreadyIndexed else Save
   | _ => if has_tree then AlreadyIndexed else Save
   end.
 
